@@ -169,15 +169,16 @@ fn l2s(l: Option<(u64, u64)>) -> String {
 
 /// `packed_attr` is not in the dump: pass what the generator knows, or None to infer it from
 /// `is_packed` and the field alignments (then the `is_packed` comparison is vacuous for that comp).
-pub fn model_request(ir: &Ir, c: &IrComp, o: &ModelOpts, packed_attr: Option<bool>) -> String {
+pub fn model_request(ir: &Ir, c: &IrComp, o: &ModelOpts, packed_attr: Option<bool>, contains_align: &[bool]) -> String {
     let detect = c.layout.map_or(false, |(_, pa)| c.fields.iter().any(|f| f.layout.map_or(false, |(_, a)| a > pa))
         || (c.own_virtual && pa == 1));
     let pattr = packed_attr.unwrap_or(c.is_packed && !detect);
-    let copy = ir.opts.get("derive_copy").map_or(true, |v| v == "1")
-        && c.fields.iter().all(|f| f.is_unit || !ir.cannot_copy.contains(&f.ty));
-    let fields: Vec<String> = c.fields.iter().map(|f| {
+    let derive_copy = ir.opts.get("derive_copy").map_or(true, |v| v == "1");
+    let copy = c.fields.iter().all(|f| f.is_unit || (derive_copy && !ir.cannot_copy.contains(&f.ty)));
+    let fields: Vec<String> = c.fields.iter().enumerate().map(|(fi, f)| {
         if f.is_unit {
-            format!("u:{}:{}", f.nth, l2s(f.layout))
+            let bits_end = f.bfs.iter().map(|b| b.2 + b.3).max().unwrap_or(0);
+            format!("u:{}:{}:{}", f.nth, l2s(f.layout), bits_end)
         } else {
             let arr = match ir.canonical(f.ty) {
                 Some(t) if t.kind == "Array" => {
@@ -186,7 +187,8 @@ pub fn model_request(ir: &Ir, c: &IrComp, o: &ModelOpts, packed_attr: Option<boo
                 }
                 _ => "-".to_string(),
             };
-            format!("d:{}:{}:{}", l2s(f.layout), f.off_bits.map_or("-".to_string(), |o| o.to_string()), arr)
+            format!("d:{}:{}:{}:{}", l2s(f.layout), f.off_bits.map_or("-".to_string(), |o| o.to_string()), arr,
+                    contains_align.get(fi).copied().unwrap_or(false) as u8)
         }
     }).collect();
     format!(
@@ -209,6 +211,7 @@ pub struct ModelAgg {
     pub reprc: Option<(u64, u64, Vec<(usize, u64)>)>,
     pub is_packed: bool,
     pub inexact_pad: bool,
+    pub regions: Vec<String>,
 }
 
 pub fn parse_model_answer(a: &str) -> Option<ModelAgg> {
@@ -224,6 +227,7 @@ pub fn parse_model_answer(a: &str) -> Option<ModelAgg> {
                 "align" => m.align = v.parse().ok(),
                 "ispacked" => m.is_packed = v == "1",
                 "inexact" => m.inexact_pad = v == "1",
+                "regions" => if v != "-" { m.regions = v.split('+').map(|s| s.to_string()).collect(); },
                 "fields" => if v != "-" {
                     for f in v.split(',') {
                         let p: Vec<&str> = f.splitn(4, ':').collect();
